@@ -335,6 +335,62 @@ func c08Run(w *vfWorld, p c08Point) (violated bool, key, what, class string, dir
 
 // ---- (a') case-twin accounts: with disable_username_normalization "Admin" is not "admin"
 
+// (c) bootstrap OTPs that nobody with administrator rights asked for: the login
+// path can mail a user a bootstrap OTP when the operator enabled self-service
+// (allow_self_service_bootstrap_otp).  Product of the three settings involved x
+// account shape x login entry; without the self-service option a login issues
+// nothing and mails nothing, with it (and a mail sender, and no device) it does.
+func c08SelfService(c *vfeng.Ctx) {
+	for _, enable := range []bool{false, true} {
+		for _, selfsvc := range []bool{false, true} {
+			for _, mail := range []bool{false, true} {
+				for _, user := range []string{"dave", "alice", "erin"} {
+					for _, via := range []string{"form", "basic", "form-html"} {
+						users := map[string]string{"alice": vfUsers["alice"], "dave": "dave-pw", "erin": "erin-pw"}
+						w := vfNewWorld(vfOpts{CertBackends: []string{"U2F"}, WebUIBackends: []string{"U2F"}, EnableTOTP: true, EnableBootstrap: enable, Users: users, AdminUsers: []string{"admin"}})
+						m := &vfFakeMail{}
+						w.state.Config.Base.AllowSelfServiceBootstrapOTP = selfsvc
+						w.state.Config.Email.Domain = "example.com"
+						if mail {
+							w.state.emailManager = m
+						}
+						w.vfGiveTOTP("alice", 1)
+						vfMust(w.state.SaveUserProfile("dave", &userProfile{U2fAuthData: map[int64]*u2fAuthData{}, TOTPAuthData: map[int64]*totpAuthData{}}))
+						// erin once had a device and removed it
+						vfMust(w.state.SaveUserProfile("erin", &userProfile{U2fAuthData: map[int64]*u2fAuthData{}, TOTPAuthData: map[int64]*totpAuthData{}, UserHasRegistered2ndFactor: true}))
+						q := vfReq{Method: "POST", Path: "/api/v0/login", Form: url.Values{"username": {user}, "password": {users[user]}}}
+						switch via {
+						case "basic":
+							q = vfReq{Method: "POST", Path: "/api/v0/login", HasBasic: true, Basic: [2]string{user, users[user]}}
+						case "form-html":
+							q.Header = map[string]string{"Accept": "text/html"}
+						}
+						resp := w.Do(q.Build())
+						prof, _, _, _ := w.state.LoadUserProfile(user)
+						issued := prof != nil && len(prof.BootstrapOTP.Sha512Hash) > 0
+						m.mu.Lock()
+						sent := m.Sent
+						m.mu.Unlock()
+						w.Close()
+						c.Eval(1)
+						pt := map[string]interface{}{"part": "self-service", "enable_bootstrapotp": enable, "allow_self_service": selfsvc, "mail": mail, "user": user, "via": via}
+						switch {
+						case !selfsvc && (issued || sent > 0):
+							c.Violate("C08|bootstrap-otp-without-administrator|loginHandler|self-service-not-enabled", fmt.Sprintf("enable_bootstrapotp=%v allow_self_service_bootstrap_otp=false mail=%v: the password login of %s (%s, status %d) stored a bootstrap OTP=%v and sent %d mail(s); no administrator was involved", enable, mail, user, via, resp.Code, issued, sent), pt)
+						case selfsvc && user != "dave" && (issued || sent > 0):
+							c.Violate("C08|bootstrap-otp-without-administrator|loginHandler|account-with-devices", fmt.Sprintf("self-service enabled: the login of %s (who has or had a device) stored a bootstrap OTP=%v and sent %d mail(s)", user, issued, sent), pt)
+						case selfsvc && mail && user == "dave" && resp.Code/100 == 2 && !(issued && sent > 0):
+							c.Violate("C08|liveness|loginHandler|self-service-bootstrap-otp", fmt.Sprintf("self-service enabled with a mail sender (enable_bootstrapotp=%v): the login of dave (no device, %s) issued=%v mails=%d", enable, via, issued, sent), pt)
+						default:
+							c.Class(fmt.Sprintf("self-service|enable=%v|allow=%v|mail=%v|%s|issued=%v|status=%d", enable, selfsvc, mail, user, issued, resp.Code/100), pt)
+						}
+					}
+				}
+			}
+		}
+	}
+}
+
 func c08CaseTwins(c *vfeng.Ctx) {
 	users := map[string]string{"admin": "admin-pw", "Admin": "capital-admin-pw", "ADMIN": "upper-admin-pw", "alice": "alice-pw", "bob": "bob-pw"}
 	mk := func() *vfWorld {
@@ -521,7 +577,7 @@ func init() {
 	vfRegister(&vfeng.Check{
 		ID:    "C08",
 		Level: "model_checking",
-		Rule:  "(a) exhaustive product web-UI requirement {[password],[U2F],[TOTP,U2F]} x actor (two plain users, admin by name, admin by group, automation admin, automation user, name-prefix of the admin) x credential (cookie at password/+TOTP/+VIP/+U2F/FIDO2-only level, keymaster client certificate, basic-auth) x operation (U2F and TOTP token Update/Disable/Enable/Delete, U2F register request/response with a real soft token, WebAuthn begin, TOTP generate, profile view, users list, add/delete user, bootstrap OTP, mint for automation/non-automation/admin name) x target (self, other, an administrator, non-existent, empty, case variant) x token index (own, other kind, other user's, missing, negative, overflow) on the real handlers with before/after row digests; (a') with normalisation disabled, the accounts Admin and ADMIN (admin_users lists admin) on 7 administrative operations after a real login; (b) BFS with canonical-state deduplication over {admin request, tick 1/4/5/6 min, demote, promote, directory down/up} for a group-admin on the real IsAdminUser/admincache path",
+		Rule:  "(a) exhaustive product web-UI requirement {[password],[U2F],[TOTP,U2F]} x actor (two plain users, admin by name, admin by group, automation admin, automation user, name-prefix of the admin) x credential (cookie at password/+TOTP/+VIP/+U2F/FIDO2-only level, keymaster client certificate, basic-auth) x operation (U2F and TOTP token Update/Disable/Enable/Delete, U2F register request/response with a real soft token, WebAuthn begin, TOTP generate, profile view, users list, add/delete user, bootstrap OTP, mint for automation/non-automation/admin name) x target (self, other, an administrator, non-existent, empty, case variant) x token index (own, other kind, other user's, missing, negative, overflow) on the real handlers with before/after row digests; (a') with normalisation disabled, the accounts Admin and ADMIN (admin_users lists admin) on 7 administrative operations after a real login; (c) bootstrap OTPs issued by the login path: {enable_bootstrapotp} x {allow_self_service_bootstrap_otp} x {mail sender} x {no device, TOTP device, had a device} x {form, basic, html form}: nothing is stored or mailed unless the operator enabled self-service; (b) BFS with canonical-state deduplication over {admin request, tick 1/4/5/6 min, demote, promote, directory down/up} for a group-admin on the real IsAdminUser/admincache path",
 		Assumptions: []string{"the reference decision is written from the statement: self-service needs a session at the web-UI level; other users' tokens need admin + U2F bit; user administration needs admin; minting needs (automation) admin and an automation identity", "while the directory does not answer the cache may keep its last value"},
 		Shards: func(tier string) int { return 16 },
 		Run: func(c *vfeng.Ctx) {
@@ -570,6 +626,9 @@ func init() {
 			if c.Shard == c.NShards-1 {
 				c08CaseTwins(c)
 			}
+			if c.Shard == c.NShards-2 {
+				c08SelfService(c)
+			}
 			// (b)
 			depth := 6
 			if c.Thorough() {
@@ -589,6 +648,14 @@ func init() {
 			}
 			var cp struct {
 				Part string `json:"part"`
+			}
+			if json.Unmarshal(raw, &cp) == nil && cp.Part == "self-service" {
+				n := len(c.Res.Violations)
+				c08SelfService(c)
+				if len(c.Res.Violations) > n {
+					return true, c.Res.Violations[n].Key + " :: " + c.Res.Violations[n].What
+				}
+				return false, "self-service product re-run: nothing issued without the option"
 			}
 			if json.Unmarshal(raw, &cp) == nil && cp.Part == "case-twins" {
 				n := len(c.Res.Violations)
